@@ -282,11 +282,72 @@ def job(arg):
             res.sample({"path": ["", "<sandbox components>", "outside.txt"], "method": "all"})
         elif kind == "blocks":
             blocks(res, sb, holder)
+            two_roots(res, sb)
     finally:
         for sw in holder.values():
             sw.dispose()
         sb.destroy()
     return res
+
+
+def two_roots(res, sb):
+    """Two file servers in one process, each with a root of its own: whatever the one has served before, the other one stays inside
+    its own directory (a read-only server's tree is never changed through the writable one)."""
+    rootb = sb.base / "rootb"
+    if rootb.exists():
+        shutil.rmtree(rootb)
+    rootb.mkdir()
+    (rootb / "f.txt").write_bytes(b"B's file")
+    (rootb / "sub").mkdir()
+    (rootb / "sub" / "h.txt").write_bytes(b"B's nested")
+    a = SiteWorld(lambda sw: FileServer(sb.root, sw.ctx.log.getChild("fsa"), write=False))
+    b = SiteWorld(lambda sw: FileServer(rootb, sw.ctx.log.getChild("fsb"), write=True))
+    try:
+        def inside_b(p):
+            try:
+                rp = os.path.realpath(p)
+            except (ValueError, OSError):
+                return True
+            r = os.path.realpath(rootb)
+            return rp == r or rp.startswith(r + os.sep)
+        paths = (["f.txt"], ["sub", "h.txt"], ["sub", ""], [""], ["new.txt"], ["g.bin"])
+        for first in ("a", "b"):
+            for comps in paths:
+                for method in (GET, PUT, DELETE):
+                    snap_a = {k: v for k, v in sb.snapshot().items() if sb.inside(k)}
+                    order = (a, b) if first == "a" else (b, a)
+                    for sw in order:
+                        msg = Message(code=GET if sw is a else method, uri_path=list(comps), payload=b"NEW" if (sw is b and method == PUT) else b"")
+                        del TOUCHED[:]
+                        ACTIVE[0] = True
+                        try:
+                            r = sw.do(msg, 1)
+                        finally:
+                            ACTIVE[0] = False
+                        touched = list(TOUCHED)
+                        res.evaluations += 1
+                        case = {"two_roots": list(comps), "method": int(method), "first": first, "server": "a" if sw is a else "b"}
+                        wrong = sorted({p_ for ev, p_ in touched if not (sb.inside(p_) if sw is a else inside_b(p_))})
+                        if wrong:
+                            res.violate(Violation("touched-outside-root", "only objects inside the server's own root", wrong[:4],
+                                                  "cli/fileserver.py:request_to_localpath", case, key="other-root:%d" % int(msg.code)))
+                        if sw is b and int(r.code) == 69 and comps == ["f.txt"] and bytes(r.payload) != b"B's file" and method == GET:
+                            res.violate(Violation("touched-outside-root", "B serves its own f.txt", bytes(r.payload), "cli/fileserver.py", case, key="other-root-content"))
+                    snap_a2 = {k: v for k, v in sb.snapshot().items() if sb.inside(k)}
+                    if snap_a2 != snap_a:
+                        res.violate(Violation("modified-without-write-permission", "the read-only server's tree is unchanged",
+                                              sorted(set(snap_a.items()) ^ set(snap_a2.items()))[:4], "cli/fileserver.py", {"two_roots": list(comps), "method": int(method), "first": first},
+                                              key="ro-tree-via-other-server"))
+                        sb.populate()
+                    # restore B's tree for the next round
+                    (rootb / "f.txt").write_bytes(b"B's file")
+                    (rootb / "sub").mkdir(exist_ok=True)
+                    (rootb / "sub" / "h.txt").write_bytes(b"B's nested")
+                    res.signatures.add(("two-roots", tuple(comps), int(method), first))
+        res.outcomes.add(("two-roots", "done"))
+    finally:
+        a.dispose()
+        b.dispose()
 
 
 def blocks(res, sb, holder):
@@ -343,7 +404,9 @@ def replay(case, scenario, seed):
     sb = Sandbox()
     holder = {}
     try:
-        if "file_size" in case:
+        if "two_roots" in case:
+            two_roots(res, sb)
+        elif "file_size" in case:
             blocks(res, sb, holder)
         else:
             comps = case["path"]
